@@ -155,3 +155,168 @@ Proof.
         unfold read_fuel in RL. rewrite O2 in RL. cbn in RL. rewrite O3, O2 in RL. inversion RL; subst. cbn in F. discriminate.
     + inversion ST; subst. cbn. exact HF.
 Qed.
+
+(* ---------- one Read call of one reader ---------- *)
+Lemma reader_read_inv st0 E lookup n r :
+  0 < n -> RInv st0 E r -> lk_ok st0 (r_todo r) lookup ->
+  RInv st0 E (fst (reader_read lookup n r)) /\ incl (r_todo (fst (reader_read lookup n r))) (r_todo r).
+Proof.
+  intros Hn HI LK. unfold reader_read. destruct (r_st r) eqn:RS.
+  - exact (read_loop_inv st0 E lookup n Hn (read_fuel r) r RS HI LK).
+  - unfold RInv in HI. rewrite RS in HI. destruct HI as (O1 & O2 & O3).
+    unfold read_fuel. rewrite O2. cbn. rewrite O3, O2. cbn. split; [unfold RInv; cbn; auto|intros x []].
+  - cbn. split; [exact HI|apply incl_refl].
+Qed.
+
+Lemma reader_read_nofail st0 E lookup n r :
+  RInv st0 E r -> (forall e, In e (r_todo r) -> lookup (e_pid e) <> None) -> r_st r <> Failed ->
+  r_st (fst (reader_read lookup n r)) <> Failed.
+Proof.
+  intros HI HL HF. unfold reader_read. destruct (r_st r) eqn:RS; [| |contradiction].
+  - intros F. destruct (read_loop_status (read_fuel r) lookup n r RS F) as (e & He & Le). exact (HL e He Le).
+  - unfold RInv in HI. rewrite RS in HI. destruct HI as (_ & O2 & O3).
+    unfold read_fuel. rewrite O2. cbn. rewrite O3, O2. cbn. discriminate.
+Qed.
+
+(* ---------- several range readers sharing one read transaction ---------- *)
+Lemma set_nth_length {A} (l : list A) i x : length (set_nth l i x) = length l.
+Proof. revert i. induction l as [|y l IH]; intros [|i]; cbn; try reflexivity. rewrite IH. reflexivity. Qed.
+Lemma nth_set_nth_same {A} (l : list A) i x y : nth_error l i = Some y -> nth_error (set_nth l i x) i = Some x.
+Proof. revert i. induction l as [|z l IH]; intros [|i] H; cbn in *; try discriminate; [reflexivity|]. apply IH. exact H. Qed.
+Lemma nth_set_nth_other {A} (l : list A) i j x : i <> j -> nth_error (set_nth l i x) j = nth_error l j.
+Proof.
+  revert i j. induction l as [|z l IH]; intros [|i] [|j] H; cbn; try reflexivity; [contradiction|]. apply IH. lia.
+Qed.
+Lemma all_true_nth l i : all_true l = true -> nth_error l i = Some false -> False.
+Proof.
+  unfold all_true. intros H N. apply nth_error_In in N. rewrite forallb_forall in H. specialize (H false N). discriminate.
+Qed.
+
+Definition MInv (st0 : pstore) (todos : list (list entry)) (s : msys) : Prop :=
+  (forall i r, nth_error (ms_rds s) i = Some r ->
+      exists todo, nth_error todos i = Some todo /\ RInv st0 (expected st0 todo) r /\ incl (r_todo r) todo) /\
+  ms_snap s = st0 /\ env_ok st0 (concat todos) (ms_store s) /\
+  (ms_tx s = true \/ all_true (ms_closed s) = true) /\
+  (ms_mode s = Snapshot -> forall i r, nth_error (ms_rds s) i = Some r -> nth_error (ms_closed s) i = Some false ->
+      r_st r <> Failed).
+
+Lemma in_concat_nth {A} (ls : list (list A)) i l x : nth_error ls i = Some l -> In x l -> In x (concat ls).
+Proof.
+  revert i. induction ls as [|y ls IH]; intros [|i] H Hx; cbn in *; try discriminate.
+  - inversion H; subst. apply in_or_app. left. exact Hx.
+  - apply in_or_app. right. eapply IH; eassumption.
+Qed.
+
+Lemma mstart_inv m st0 todos : MInv st0 todos (mstart m st0 todos).
+Proof.
+  unfold MInv, mstart. cbn. split; [|split; [reflexivity|split; [apply env_ok_refl|split]]].
+  - intros i r H. rewrite nth_error_map in H. destruct (nth_error todos i) as [todo|] eqn:T; [|discriminate].
+    cbn in H. inversion H; subst. exists todo. split; [reflexivity|]. split; [|apply incl_refl].
+    unfold RInv, mk_reader, rest_of. cbn. reflexivity.
+  - destruct todos; cbn; [right; reflexivity|left; reflexivity].
+  - intros _ i r H _. rewrite nth_error_map in H. destruct (nth_error todos i); [|discriminate].
+    cbn in H. inversion H; subst. cbn. discriminate.
+Qed.
+
+Lemma msys_step_inv st0 todos s l :
+  (forall e, In e (concat todos) -> ps_get st0 (e_pid e) <> None) ->
+  MInv st0 todos s -> mlabels_ok st0 (concat todos) [l] -> MInv st0 todos (fst (msys_step s l)).
+Proof.
+  intros HP (HR & HN & HE & HT & HF) HL. destruct l as [i n|i|st'].
+  - destruct HL as [Hn _]. cbn [msys_step].
+    destruct (nth_error (ms_rds s) i) as [r|] eqn:NR; [|cbn; repeat split; assumption].
+    destruct (nth_error (ms_closed s) i) as [[|]|] eqn:NC; try (cbn; repeat split; assumption).
+    destruct (HR i r NR) as (todo & T & RI & INC).
+    set (lookup := match ms_mode s with TxFree => ps_get (ms_store s)
+                   | Snapshot => if ms_tx s then ps_get (ms_snap s) else (fun _ => None) end).
+    assert (LK : lk_ok st0 (r_todo r) lookup).
+    { intros e He. subst lookup. destruct (ms_mode s).
+      - apply HE. eapply in_concat_nth; [exact T|]. apply INC. exact He.
+      - destruct (ms_tx s); [rewrite HN; left; reflexivity|right; reflexivity]. }
+    destruct (reader_read_inv st0 (expected st0 todo) lookup n r Hn RI LK) as [I1 I2].
+    destruct (reader_read lookup n r) as [r' o] eqn:RR. cbn [fst] in *.
+    split; [|split; [exact HN|split; [exact HE|split; [exact HT|]]]].
+    + intros j rj Hj. cbn [ms_rds] in Hj. destruct (Nat.eq_dec i j) as [<-|NE].
+      * rewrite (nth_set_nth_same _ _ _ _ NR) in Hj. inversion Hj; subst rj. exists todo. split; [exact T|].
+        split; [exact I1|]. intros x Hx. apply INC. apply I2. exact Hx.
+      * rewrite (nth_set_nth_other _ _ _ _ NE) in Hj. apply HR. exact Hj.
+    + intros HM j rj Hj Cj. cbn [ms_rds ms_closed ms_mode] in *. destruct (Nat.eq_dec i j) as [<-|NE].
+      * rewrite (nth_set_nth_same _ _ _ _ NR) in Hj. inversion Hj; subst rj.
+        assert (TX : ms_tx s = true) by (destruct HT as [X|X]; [exact X|exfalso; eapply all_true_nth; eassumption]).
+        pose proof (reader_read_nofail st0 (expected st0 todo) lookup n r RI) as NF. rewrite RR in NF. cbn in NF.
+        apply NF; [|exact (HF HM i r NR NC)].
+        intros e He. subst lookup. rewrite HM, TX, HN. apply HP. eapply in_concat_nth; [exact T|]. apply INC. exact He.
+      * rewrite (nth_set_nth_other _ _ _ _ NE) in Hj. apply (HF HM j rj Hj Cj).
+  - cbn [msys_step]. destruct (nth_error (ms_closed s) i) as [[|]|] eqn:NC; try (cbn; repeat split; assumption).
+    cbn. split; [exact HR|split; [exact HN|split; [exact HE|split]]].
+    + destruct (all_true (set_nth (ms_closed s) i true)) eqn:AT; [right; exact AT|].
+      destruct HT as [X|X]; [left; rewrite X; reflexivity|exfalso; eapply all_true_nth; eassumption].
+    + intros HM j rj Hj Cj. cbn [ms_rds ms_closed ms_mode] in *. destruct (Nat.eq_dec i j) as [<-|NE].
+      * pose proof (nth_set_nth_same (ms_closed s) i true false NC) as X. congruence.
+      * pose proof (nth_set_nth_other (ms_closed s) i j true NE) as X. apply (HF HM j rj Hj). congruence.
+  - destruct HL as [HE' _]. cbn. repeat split; assumption.
+Qed.
+
+Lemma msys_run_inv st0 todos :
+  (forall e, In e (concat todos) -> ps_get st0 (e_pid e) <> None) ->
+  forall ls s, MInv st0 todos s -> mlabels_ok st0 (concat todos) ls -> MInv st0 todos (fst (msys_run s ls)).
+Proof.
+  intros HP. induction ls as [|l ls IH]; intros s HI HL; cbn [msys_run]; [exact HI|].
+  destruct (msys_step s l) as [s1 o] eqn:ST. destruct (msys_run s1 ls) as [s2 os] eqn:SR. cbn.
+  assert (MInv st0 todos s1) as H1.
+  { change s1 with (fst (s1, o)). rewrite <- ST. apply msys_step_inv; [exact HP|exact HI|].
+    destruct l; cbn in HL |- *; try destruct HL as [A _]; auto. }
+  change s2 with (fst (s2, os)). rewrite <- SR. apply IH; [exact H1|]. destruct l; cbn in HL; tauto.
+Qed.
+
+(* the outbox view: a part with a pending DeletePart entry is invisible, anything else is what the inner store holds *)
+Lemma ob_visible_get inner pend pid :
+  ps_get (ob_visible inner pend) pid = if existsb (N.eqb pid) pend then None else ps_get inner pid.
+Proof.
+  unfold ob_visible. induction inner as [|[q c] inner IH]; cbn [filter ps_get fst]; [destruct (existsb _ pend); reflexivity|].
+  destruct (existsb (N.eqb q) pend) eqn:Q; cbn [negb].
+  - rewrite IH. destruct (N.eqb q pid) eqn:E; [|reflexivity]. apply N.eqb_eq in E. subst q. rewrite Q. reflexivity.
+  - cbn [ps_get]. destruct (N.eqb q pid) eqn:E.
+    + apply N.eqb_eq in E. subst q. rewrite Q. reflexivity.
+    + exact IH.
+Qed.
+
+Lemma ob_env_ok st0 todo inner pend :
+  env_ok st0 todo inner -> env_ok st0 todo (ob_visible inner pend).
+Proof.
+  intros H e He. rewrite ob_visible_get. destruct (existsb _ pend); [right; reflexivity|apply H; exact He].
+Qed.
+
+Lemma rinv_prefix st0 E r : RInv st0 E r -> (exists t, E = r_out r ++ t) /\ (r_st r = AtEof -> r_out r = E).
+Proof.
+  unfold RInv. destruct (r_st r) eqn:RS; intros HI.
+  - split; [eexists; symmetry; exact HI|discriminate].
+  - destruct HI as (O1 & _). split; [exists []; rewrite app_nil_r; symmetry; exact O1|intros _; exact O1].
+  - split; [exact HI|discriminate].
+Qed.
+
+Lemma msys_run_mode ls : forall s, ms_mode (fst (msys_run s ls)) = ms_mode s.
+Proof.
+  induction ls as [|l ls IH]; intros s; cbn [msys_run]; [reflexivity|].
+  destruct (msys_step s l) as [s1 o] eqn:ST. destruct (msys_run s1 ls) as [s2 os] eqn:SR. cbn.
+  change s2 with (fst (s2, os)). rewrite <- SR, IH. change s1 with (fst (s1, o)). rewrite <- ST.
+  destruct l as [i n|i|st']; cbn [msys_step].
+  - destruct (nth_error (ms_rds s) i); [|reflexivity]. destruct (nth_error (ms_closed s) i) as [[|]|]; try reflexivity.
+    destruct (reader_read _ n r). reflexivity.
+  - destruct (nth_error (ms_closed s) i) as [[|]|]; reflexivity.
+  - reflexivity.
+Qed.
+
+Lemma multi_range_full m st0 todos ls :
+  (forall e, In e (concat todos) -> ps_get st0 (e_pid e) <> None) -> mlabels_ok st0 (concat todos) ls ->
+  let s := fst (msys_run (mstart m st0 todos) ls) in
+  (forall i r, nth_error (ms_rds s) i = Some r ->
+     exists todo, nth_error todos i = Some todo /\ (exists t, expected st0 todo = r_out r ++ t) /\
+                  (r_st r = AtEof -> r_out r = expected st0 todo)) /\
+  (m = Snapshot -> forall i r, nth_error (ms_rds s) i = Some r -> nth_error (ms_closed s) i = Some false -> r_st r <> Failed).
+Proof.
+  intros HP HL s. pose proof (msys_run_inv st0 todos HP ls _ (mstart_inv m st0 todos) HL) as (HR & _ & _ & _ & HF).
+  fold s in HR, HF. split.
+  - intros i r H. destruct (HR i r H) as (todo & T & RI & _). exists todo. split; [exact T|]. apply (rinv_prefix st0). exact RI.
+  - intros HM. apply HF. unfold s. rewrite msys_run_mode. exact HM.
+Qed.
